@@ -184,6 +184,15 @@ class ConnWorld:
             elif k in ('commit-vote-fail', 'commit-finish-fail'):
                 if self.joined:
                     ops.append((k,))
+            elif k == 'commit-unpicklable':
+                # a commit that fails while it serializes a NEW object of
+                # its own (the object holds something that cannot be
+                # pickled); the attribute is removed again afterwards
+                ops += [(k, n) for n in NEW if n in spec['objects']
+                        and not m[n].committed
+                        and (m[n].in_root or m[n].in_a or m[n].owned)
+                        and (m[n].new_in_txn or not m[n].owned)
+                        and not self.handles]
             elif k == 'savepoint':
                 if len(self.handles) < spec.get('max_handles', 2) and (
                         not getattr(self, 'rivalled', False)
@@ -375,6 +384,26 @@ class ConnWorld:
             self.tm.abort()
             self._model_abort()
             return 'abort'
+        if k == 'commit-unpicklable':
+            n = op[1]
+            o = self.objs[n]
+            o.bad = (lambda: 0)
+            if m[n].owned:
+                m[n].dirty = True
+            try:
+                self.tm.commit()
+                self.bad('commit', 'unpicklable-state-committed', dict(obj=n))
+                self.dead = True
+                return 'error'
+            except Exception:       # noqa: B902 (the pickle module's choice)
+                pass
+            self.tm.abort()
+            try:
+                del o.bad
+            except AttributeError:
+                pass
+            self._model_abort()
+            return 'commit-unpicklable'
         if k in ('commit', 'commit-vote-fail', 'commit-finish-fail'):
             return self._commit(k)
         if k == 'close':
